@@ -275,6 +275,61 @@ example : errRow 1 flip00 [] 0 &&& (1#128 <<< 64) ≠ 0#128 ∧
     simp [h1, rowsOf, rowsLoop]
   rw [e]; simp
 
+/-- The property's conclusion, PARTIAL: for every alteration of the matrix
+(response intact) whose effective part `E_r & Delta` is confined to at most
+one row `r0` with a non-zero challenge — in particular every single flip and
+every set of flips within one row, in any columns — the sender never silently
+accepts an inconsistent state: whenever `Send(n, true)` returns, its outputs
+satisfy the correlation for the receiver's original choices.  (Missing for the
+full statement: effective alterations in several rows — probabilistic, see the
+header — and alterations of the response together with the matrix — false,
+`C15_kos_adaptive_forgery_witness`.) -/
+theorem C15_kos_never_silent_partial (X : Label → Nat → Label) (R0 R1 SS : Nat → Nat → Byte) (delta : Label)
+    (hb : BaseOK R0 R1 SS delta) (rs : RecvSt) (ss : SendSt) (hs : InStep rs ss) (b : Array Bool)
+    (b0 b1 seed2 : Label) (E1 E2 moreD : List Bytes) (moreL : List Label)
+    (h1 : Shape (receive R0 R1 rs b).2.2 E1)
+    (h2 : Shape (receive R0 R1 (receive R0 R1 rs b).1 (bcvOf b0 b1)).2.2 E2)
+    (r0 : Nat) (hchi : X seed2 r0 ≠ 0#128)
+    (hother : ∀ r, r < b.size + 256 → r ≠ r0 → errRow b.size E1 E2 r &&& delta = 0#128)
+    (out : SendOut)
+    (hacc : sendKos X SS delta ss b.size
+        (xorMsgs (receive R0 R1 rs b).2.2 E1 ++
+          (xorMsgs (receive R0 R1 (receive R0 R1 rs b).1 (bcvOf b0 b1)).2.2 E2 ++ moreD))
+        ((receiveKos X R0 R1 rs b b0 b1 seed2).resp ++ moreL) = some out) :
+    out.labels.length = b.size ∧
+    ∀ i, i < b.size →
+      (receiveKos X R0 R1 rs b b0 b1 seed2).labels.getD i 0#128 =
+        out.labels.getD i 0#128 ^^^ (if b.getD i false then delta else 0#128) := by
+  by_cases hall : ∀ r, r < b.size + 256 → errRow b.size E1 E2 r &&& delta = 0#128
+  · obtain ⟨_, ss', sent, hrun, hlen, hcorr⟩ :=
+      C15_kos_unselected_harmless X R0 R1 SS delta hb rs ss hs b b0 b1 seed2 E1 E2 moreD moreL h1 h2 hall
+    rw [hrun] at hacc
+    cases hacc
+    exact ⟨hlen, hcorr⟩
+  · have hr0 : r0 < b.size + 256 ∧ errRow b.size E1 E2 r0 &&& delta ≠ 0#128 := by
+      apply Classical.byContradiction
+      intro hn
+      apply hall
+      intro r hr
+      by_cases he : r = r0
+      · subst he
+        apply Classical.byContradiction
+        intro hne
+        exact hn ⟨hr, hne⟩
+      · exact hother r hr he
+    have := C15_kos_single_row_sound X R0 R1 SS delta hb rs ss hs b b0 b1 seed2 E1 E2 moreD moreL h1 h2 r0 hr0.1 hr0.2
+      hchi hother
+    rw [this] at hacc
+    cases hacc
+
+example : ∀ r, r < 1 + 256 → r ≠ 0 → errRow 1 flip00 [] r &&& (BitVec.allOnes 128) = 0#128 := by
+  intro r hr hne
+  have e : errRow 1 flip00 [] r = 0#128 := by
+    unfold errRow
+    have h1 : ¬ r < 1 := by omega
+    simp [h1, rowsOf, rowsLoop]
+  rw [e]; simp
+
 /-- `kos_response_sound`: with the matrix intact (no effective alteration) and
 the seed intact, an altered response `(x', t0', t1')` is accepted iff
 `(x ⊕ x')·Δ = (t0,t1) ⊕ (t0',t1')`.  In particular altering only `t0/t1`
